@@ -12,6 +12,7 @@ import RSVerif.Proofs.SeqEquiv
 import RSVerif.Proofs.SimdSpec
 import RSVerif.Proofs.SimdBlockSpec
 import RSVerif.Proofs.FlatSpec
+import RSVerif.Proofs.FlatEngineSpec
 
 namespace RS
 open ShardAlg
@@ -129,6 +130,21 @@ theorem flat_butterflies_refine (c : Sym) (f : Flat) (hwf : f.WF) (hn : 0 < f.le
     (∃ f', f.ifftBfly c pos dist = some f' ∧ f'.WF ∧ f'.absAt f.len64 = RS.ifftBfly c f.absV pos (pos + dist)) := by
   obtain ⟨f1, h1, _, _, w1, a1⟩ := Flat.fftBfly_refines c f hwf hn pos dist hd hp
   obtain ⟨f2, h2, _, _, w2, a2⟩ := Flat.ifftBfly_refines c f hwf hn pos dist hd hp
+  exact ⟨⟨f1, h1, w1, a1⟩, ⟨f2, h2, w2, a2⟩⟩
+
+/-- whole transforms on the real flat memory: `Engine::fft` / `Engine::ifft` of BOTH engine families
+    (naive loops with `dist2_mut`; two-layer loops with one `dist4_mut` per radix-4 group, final odd
+    layer with `dist2_mut`, the ifft's last layer through `split_at_mut` / `xor_within`), transliterated
+    on `Vec<[u8; 64]>`, never panic inside `[pos, pos + size)` and compute exactly the model transform
+    on the shards seen as block vectors -/
+theorem flat_transforms_refine (s : Sched) (f : Flat) (hwf : f.WF) (hn : 0 < f.len64)
+    (pos e trunc delta : Nat) (ht : trunc ≤ 2 ^ e) (hp : pos + 2 ^ e ≤ f.count) :
+    (∃ f', flatFft s f pos (2 ^ e) trunc delta = some f' ∧ f'.WF ∧
+      f'.absAt f.len64 = fft s f.absV pos (2 ^ e) trunc delta) ∧
+    (∃ f', flatIfft s f pos (2 ^ e) trunc delta = some f' ∧ f'.WF ∧
+      f'.absAt f.len64 = ifft s f.absV pos (2 ^ e) trunc delta) := by
+  obtain ⟨f1, h1, w1, _, _, a1⟩ := flatFft_refines s f hwf hn pos e trunc delta ht hp
+  obtain ⟨f2, h2, w2, _, _, a2⟩ := flatIfft_refines s f hwf hn pos e trunc delta ht hp
   exact ⟨⟨f1, h1, w1, a1⟩, ⟨f2, h2, w2, a2⟩⟩
 
 end RS
